@@ -298,6 +298,22 @@ def check_cp(ctx, im):
         mtotal = None
     if (mtotal is None or abs(mtotal - total) > 1e-9) and not im.raised:
         ctx.correspondence_break("get_critical_path", dict(im.info(), impl_total=total, impl=impl, model_total=rep))
+    # the marked chain: the model follows the same predecessor pointers (first maximum, first maximal predecessor);
+    # networkx' predecessor order is insertion order of the edges = the model's edge order
+    rep2 = ctx.driver.ask1("%s %s" % (im.head("cpmarks"), esc(im.ky)))
+    try:
+        mmarks = [(int(t.split(":")[0]), float(Fraction(t.split(":")[1]))) for t in rep2.split(",") if t]
+    except Exception:  # noqa
+        mmarks = None
+    if mmarks is not None and not im.raised:
+        same = len(mmarks) == len(impl) and all(a[0] == b[0] and abs(a[1] - b[1]) < 1e-9 for a, b in zip(mmarks, impl))
+        if not same:
+            # another chain of the same (maximal) length is as good as the model's: only a different total is a disagreement
+            ctx.count("cp_marks_other_tie")
+            if abs(sum(v for _, v in mmarks) - total) > 1e-9:
+                ctx.correspondence_break("get_critical_path-marks", dict(im.info(), impl=impl, model=mmarks))
+        else:
+            ctx.count("cp_marks_equal")
     # oracle: the longest chain over the implementation's own graph
     edges = [[int(s), int(d), Fraction(*w.as_integer_ratio())] for (s, d), w in im.edges().items() if not s.endswith("L")]
     longest = float(Fraction(ctx.driver.ask1("speclongest %s %s" % (esc(yenc2(im.lat_infos())), esc(yenc2(edges))))))
